@@ -7,6 +7,27 @@ from dsim.base import Check
 
 NEXT_LABEL = {"A": "B", "B": "C", "C": "D", "D": "E", "E": "F", "F": "A"}
 BLOCK_CLASSES = ("hdr", "pre", "csbk", "R12", "R34", "R1")
+EXH_ALPHABET = ["vh", "term", "vs", "ve", "hdr1", "hdr2c", "hdrudt", "pre2", "csbk", "R12", "R34", "R1"]
+_EXH_CACHE = {}  # verif_seed -> alphabet (hex strings); filled per worker by a pristine child, so that the worker itself never calls the library
+
+
+def _build_exh_alphabet(verif_seed):
+    """the 12 canonical bursts of the exhaustive arms, built with the real encoders from one seed per batch: the same bursts in every run"""
+    import random as _random
+
+    air._imports()
+    ra = _random.Random(core.derive(verif_seed, "C08exh-alphabet"))
+    cc = ra.randrange(16)
+    src, dst = ra.getrandbits(24), ra.getrandbits(24)
+    vsync = ra.choice(air.VOICE_SYNCS)
+    alpha = {
+        "vh": (air.lc_burst(ra, air.DataTypes.VoiceLCHeader, cc, src, dst), "D"), "term": (air.lc_burst(ra, air.DataTypes.TerminatorWithLC, cc, src, dst), "D"),
+        "vs": (air.voice_burst(ra, sync=vsync), "V"), "ve": (air.voice_burst(ra, cc=cc, lcss=ra.randrange(4)), "V"),
+        "hdr1": (air.hdr_burst(ra, cc, fmt="unconf", btf=1, conf=False), "D"), "hdr2c": (air.hdr_burst(ra, cc, fmt="conf", btf=2, conf=True), "D"),
+        "hdrudt": (air.hdr_burst(ra, cc, fmt="udt"), "D"), "pre2": (air.csbk_burst(ra, cc, True, btf=2), "D"), "csbk": (air.csbk_burst(ra, cc, False), "D"),
+        "R12": (air.rate_burst(ra, cc, k="R12"), "D"), "R34": (air.rate_burst(ra, cc, k="R34"), "D"), "R1": (air.rate_burst(ra, cc, k="R1"), "D"),
+    }
+    return {t: (b.hex(), bt) for t, (b, bt) in alpha.items()}
 
 
 def pick_length(r, rate, conf):
@@ -334,16 +355,37 @@ class C08(Check):
 
         c19.preload_cotenant()
 
+    def worker_prepare(self, verif_seed, arm):
+        if arm.startswith("exh") and verif_seed not in _EXH_CACHE:
+            from dsim import pristine
+
+            a = pristine.run_in_child(_build_exh_alphabet, verif_seed, 120)
+            if isinstance(a, dict):
+                _EXH_CACHE[verif_seed] = a
+
     def arms(self, tier):
+        # exhN: EVERY sequence of length N over an alphabet of 12 canonical bursts on one slot (shorter sequences are prefixes of longer ones and are
+        # judged burst by burst on the way); the alphabet's contents are seeded per batch
         if tier == "quick":
-            return [("clean", 1200), ("faults", 3600)]
-        return [("clean", 15000), ("faults", 60000)]
+            return [("exh4", len(EXH_ALPHABET) ** 4), ("clean", 1200), ("faults", 3600)]
+        return [("exh4", len(EXH_ALPHABET) ** 4), ("exh5", len(EXH_ALPHABET) ** 5), ("clean", 15000), ("faults", 60000)]
 
     # ---------------------------------------------------------------- generation
 
     def generate(self, arm, index, streams, tier):
         air._imports()
         w, k, s, f = streams["work"], streams["knobs"], streams["sched"], streams["fault"]
+        if arm.startswith("exh"):
+            n = int(arm[3:])
+            alpha = _EXH_CACHE.get(streams.verif_seed) or _build_exh_alphabet(streams.verif_seed)
+            assert list(alpha) == EXH_ALPHABET
+            seq, x = [], index
+            for _ in range(n):
+                seq.append(EXH_ALPHABET[x % len(EXH_ALPHABET)])
+                x //= len(EXH_ALPHABET)
+            ops = [{"kind": "burst", "term": 77, "ts": 1, "data": alpha[t][0], "bt": alpha[t][1], "tag": t, "f": []} for t in seq]
+            return {"knobs": {"terminals": [77], "entropy_seed": 1 + index % 7, "second_observer": True, "reuse_parsed": False, "inline_observers": False, "twin_lag": 0,
+                              "exh": "".join(t + " " for t in seq).strip()}, "ops": ops}
         terms = [77] if k.random() < 0.6 else [77, 1234]
         knobs = {"terminals": terms, "entropy_seed": k.getrandbits(32), "second_observer": True, "reuse_parsed": k.random() < 0.3,
                  "inline_observers": k.random() < 0.25, "twin_lag": k.choice([1, 4, 9]) if k.random() < 0.12 else 0}
